@@ -33,10 +33,12 @@ def subharnesses(tier):
                 events = [('none',), ('server_state', 0, 'down')]
                 ups = ()
             elif evset == 'q':
+                # (server replaced with another capacity: covered by the
+                # loader-level sub-harnesses through the real reload_server;
+                # the G1 imitation of it stays in the thorough tier)
                 events = [('none',), ('server_state', 0, 'down'),
                           ('server_state', 1, 'down'), ('remove_server', 0),
-                          ('replace_server', 1, {}), ('remove_app', 0),
-                          ('remove_app', A - 1)]
+                          ('remove_app', 0), ('remove_app', A - 1)]
                 ups = (0,)
             else:
                 events = [('none',), ('server_state', 0, 'down'),
